@@ -610,6 +610,15 @@ Theorem c20_silent_failure_exactly_known_b : forall f e,
 Proof. exact silent_failure_iff. Qed.
 Print Assumptions c20_silent_failure_exactly_known_b.
 
+Theorem c20_known_b_reading : forall f e, known_b f e = true ->
+  f_verbose_off f = true /\
+  ((exists r, decide f = Rejected r /\ r <> UsageConflict) \/
+   (exists p, decide f = Plan p /\
+      (e_read e = false \/ (e_read e = true /\ p_process p = true /\ e_process e = false /\ creates_ok e (p_creates p) = true)))) /\
+  creates_ok e (opt_list (f_log_file f)) = true.
+Proof. exact known_b_reading. Qed.
+Print Assumptions c20_known_b_reading.
+
 (* F-C20d: a failing run that leaves report bytes on the primary output  <->  every sink was created, the dump was read (and
    processed), and the FIRST failing printer call is an io error (not a broken pipe) that is either (B) the primary report's own
    call after it had streamed a prefix, or (A) the --cyborg file's JSON after the primary report was written completely *)
